@@ -1,4 +1,4 @@
-HOOK_COMMITS = ["5361467"]
+HOOK_COMMITS = ["5361467", "86b347b"]
 
 CHECKS = {
  "C06": dict(engine="K", category="model_checking",
@@ -6,11 +6,17 @@ CHECKS = {
    design_ref="DESIGN.md section 4 C06",
    note="Trusted: Kani/CBMC; sequential parking_lot stand-in (mutual exclusion contract); atomics sequentially consistent (no weak-memory effects); only nested interleavings (one operation completes inside a window of the other), 2 threads, <= 130 elements; allocator never fails.",
    technique="bounded model checking (Kani/CBMC SAT) of compiled Rust, symbolic preemption points"),
+
+ "C23": dict(engine="K", category="other",
+   text="Bounded-exhaustive decision by CBMC over the compiled isograph_lsp crate: the three position conversion kernels (delta_line_delta_start, char_index_to_position, get_index_of_line_char) agree with the LSP definition of a position (line breaks before, UTF-16 code units since the line start) for every valid UTF-8 text of at most 4 bytes (quick) / 6 bytes (thorough) and every character-boundary offset. This is the level a solver can reach: the kernels are where byte/char/UTF-16 confusion lives; the handlers that call them need the database.",
+   design_ref="DESIGN.md section 4 C23",
+   note="Trusted: Kani/CBMC; the oracle in the harness (LSP spec); texts beyond 6 bytes, token-length computation in semantic_tokens.rs, request handlers and ranges assembled from parsed literals are outside the claim.",
+   technique="bounded model checking (Kani/CBMC SAT) of compiled Rust against a specification oracle"),
 }
 
 NA_COMMON = "whole-compiler behaviour: needs IsographDatabase (#[memo] over TypeId hashing), std HashMap, file system and format!-built text, none of which Kani/CBMC can decide here (DESIGN.md section 2, probes P2/P4/P5/P8/P9)"
 NOT_APPLICABLE = {p: "not yet built in this revision (see DESIGN.md)" for p in
-  ["C01","C02","C03","C04","C05","C07","C12","C16","C23","C24","C28","C31","C32","C33"]}
+  ["C01","C02","C03","C04","C05","C07","C12","C16","C24","C28","C31","C32","C33"]}
 NOT_APPLICABLE.update({
  "C08": NA_COMMON,
  "C09": "observable is the JS-evaluated artifact text of a whole compile validated by a GraphQL implementation; printers are format!-based and need a real compile's merged selection map",
